@@ -57,6 +57,7 @@ type interpreter struct {
 	curG               *gor
 	progress           int
 	abortAll           bool
+	mainWaiting        bool // main is in vSettle / vJoin: not a useful preemption target
 	sync               chan struct{}
 }
 
@@ -742,6 +743,7 @@ func (i *interpreter) doSelect(fr *frame, instr *ssa.Select) value {
 		ch   *chanv
 		send bool
 	}
+	i.maybePreemptSync()
 	for {
 		var ready []cs
 		var timers []cs
@@ -771,18 +773,51 @@ func (i *interpreter) doSelect(fr *frame, instr *ssa.Select) value {
 		switch {
 		case len(ready) > 0:
 			c := ready[0]
+			if i.w.preemptChans && i.w.local == nil {
+				// Go picks one of the ready cases at random: fork over which
+				for k := 0; k+1 < len(ready); k++ {
+					t := i.w.newInput("select_pick", 1)
+					if i.w.decideFresh(t) {
+						break
+					}
+					c = ready[k+1]
+				}
+			}
 			chosen = c.idx
+			i.curG.noPreempt++
 			if c.send {
 				i.chanSend(c.ch, fr.get(instr.States[c.idx].Send))
 			} else {
 				recv, recvOk = i.chanRecv(c.ch, instr.States[c.idx].Chan.Type().Underlying().(*types.Chan).Elem())
 			}
+			i.curG.noPreempt--
 		case !instr.Blocking:
 			chosen = -1
 		default:
 			// nothing ready: let the other goroutines run first; a timer fires
 			// only when nobody else can make progress
-			if i.yield() {
+			i.curG.timerWait = len(timers) > 0
+			me := i.curG
+			me.waitReady = func() bool {
+				for _, st := range instr.States {
+					ch, _ := fr.get(st.Chan).(*chanv)
+					if ch == nil {
+						continue
+					}
+					if st.Dir == types.SendOnly {
+						if ch.closed || ch.canSend() {
+							return true
+						}
+					} else if len(ch.buf) > 0 || ch.closed {
+						return true
+					}
+				}
+				return false
+			}
+			yielded := i.yield()
+			me.waitReady = nil
+			i.curG.timerWait = false
+			if yielded {
 				continue
 			}
 			if len(timers) == 0 {
@@ -791,6 +826,8 @@ func (i *interpreter) doSelect(fr *frame, instr *ssa.Select) value {
 			c := timers[0]
 			chosen = c.idx
 			i.progress++ // a timer fired: that is progress
+			i.curG.noPreempt++
+			{ me := i.curG; defer func() { me.noPreempt-- }() }
 			recv, recvOk = i.chanRecv(c.ch, instr.States[c.idx].Chan.Type().Underlying().(*types.Chan).Elem())
 		}
 		r := tuple{chosen, recvOk}
